@@ -125,19 +125,51 @@ def spec_verify_num_args(fns, consts):
 
 
 def spec_needs_more_vals(fns, consts):
+    """needs_more_vals(o) <=> pending < max, where pending = (pending buffer belongs to o) ? number of
+    raw argv tokens buffered : 0.  If the code no longer has that shape the clause is reported as
+    violated-in-the-encoding and left to the native family to confirm or not (never a VIOLATION alone)."""
     con = contracts.Contracts(fns, default_pure=True, extra_inline=RANGE_INLINE)
     ctx = symex.Ctx(consts, con)
     fn = _find(fns, "parser/arg_matcher.rs", "needs_more_vals")
     ex = symex.Exec(ctx, fn, [("opq", "self"), ("opq", "o")]).run()
-    pending = _key_sym(ctx, r"^Option::<usize>::unwrap_or\(", "(_ BitVec 64)")
-    hi = _key_sym(ctx, r"expect\(Arg::get_num_args\(o\).*\)\.1$", "(_ BitVec 64)")
     obs = list(ex.obligations)
-    for pc, val in ex.returns:
-        obs.append({"fn": fn.name, "block": "ret", "kind": "spec", "target": "needs_more_vals", "msg": "another value is taken <=> pending count < max of the value range",
-                    "pc": list(pc), "neg": f"(not (= {val[1]} (bvult {pending} {hi})))"})
+
+    def shape(msg, pc=()):
+        obs.append({"fn": fn.name, "block": "shape", "kind": "spec", "target": "needs_more_vals", "msg": msg, "pc": list(pc), "neg": "true"})
+
+    try:
+        pending = _key_sym(ctx, r"^Option::<usize>::unwrap_or\(", "(_ BitVec 64)")
+        hi = _key_sym(ctx, r"expect\(Arg::get_num_args\(o\).*\)\.1$", "(_ BitVec 64)")
+        for pc, val in ex.returns:
+            obs.append({"fn": fn.name, "block": "ret", "kind": "spec", "target": "needs_more_vals", "msg": "another value is taken <=> pending count < max of the value range",
+                        "pc": list(pc), "neg": f"(not (= {val[1]} (bvult {pending} {hi})))"})
+        calls = ex.return_calls[0] if ex.return_calls else ()
+        if not (any(re.search(r"^Option::<&PendingArg>::and_then::<usize, \{closure", c) for c in calls)
+                and any(re.search(r"^Option::<usize>::unwrap_or$", c) for c in calls)
+                and re.search(r"unwrap_or\(.*,\(_ bv0 64\)\)$", [k for k in ctx.keys if k.startswith("Option::<usize>::unwrap_or(")][0])):
+            shape("pending count is no longer `pending.as_ref().and_then(closure).unwrap_or(0)`")
+    except Unsupported as e:
+        shape("needs_more_vals no longer has the reference shape: " + str(e)[:100])
+    enc = [_enc(fn, ex, len(ex.returns))]
+    # the closure: Some(raw_vals.len()) iff the pending buffer's id equals the option's id
+    try:
+        clo = _find(fns, "parser/arg_matcher.rs", "needs_more_vals::{closure#0}")
+        ex2 = symex.Exec(ctx, clo, [("opq", "clo_env"), ("opq", "p")]).run()
+        obs += ex2.obligations
+        ideq = _key_sym(ctx, r"^<Id as PartialEq>::eq\(", "Bool")
+        vlen = _key_sym(ctx, r"^Vec::<OsString>::len\(p\.2\)$", "(_ BitVec 64)")
+        for pc, val in ex2.returns:
+            if val[0] != "option":
+                shape("closure does not return `(id matches).then_some(len)`", pc)
+                continue
+            obs.append({"fn": clo.name, "block": "ret", "kind": "spec", "target": "needs_more_vals", "msg": "pending count = number of buffered raw argv tokens, only for the matching option",
+                        "pc": list(pc), "neg": f"(not (and (= {val[1]} {ideq}) (= {val[2][1]} {vlen})))"})
+        enc.append(_enc(clo, ex2, len(ex2.returns)))
+    except Unsupported as e:
+        shape("pending-count closure no longer has the reference shape: " + str(e)[:100])
     for o in obs:
         o.setdefault("target", "needs_more_vals")
-    return ctx, obs, [_enc(fn, ex, len(ex.returns))], con
+    return ctx, obs, enc, con
 
 
 SPECS = {
@@ -342,3 +374,68 @@ def spec_phase_order(fns, consts):
 
 
 SPECS["C06"] = [spec_phase_order]
+
+
+# ------------------------------------------------------------------ C03: the exclusive rule
+
+def spec_validate_exclusive(fns, consts):
+    """Validator::validate_exclusive and its closures: presence is counted over EXPLICITLY present
+    arguments that are real args (not groups); nothing to check when at most one is present;
+    otherwise an exclusive one among them is a conflict.  Shape deviations are left to the native family."""
+    con = contracts.Contracts(fns, default_pure=True)
+    ctx = symex.Ctx(consts, con)
+    fn = _find(fns, "parser/validator.rs", "validate_exclusive")
+    obs, enc = [], []
+
+    def shape(msg, pc=()):
+        obs.append({"fn": fn.name, "block": "shape", "kind": "spec", "target": "validate_exclusive", "msg": msg, "pc": list(pc), "neg": "true"})
+
+    try:
+        ex = symex.Exec(ctx, fn, [("opq", "self"), ("opq", "matcher")]).run()
+        obs += ex.obligations
+        enc.append(_enc(fn, ex, len(ex.returns)))
+        cnt = _key_sym(ctx, r" as Iterator>::count\(", "(_ BitVec 64)")
+        seen = set()
+        for (pc, val), calls in zip(ex.returns, ex.return_calls):
+            late = any(re.search(r" as Iterator>::find_map::<", c) for c in calls)
+            seen.add(late)
+            if late:
+                obs.append({"fn": fn.name, "block": "ret", "kind": "spec", "target": "validate_exclusive", "msg": "the conflict search runs only when more than one argument is explicitly present",
+                            "pc": list(pc), "neg": f"(bvule {cnt} (_ bv1 64))"})
+            else:
+                if not (val[0] == "enum" and val[1] == "Ok"):
+                    shape("early return is not Ok(())", pc)
+                obs.append({"fn": fn.name, "block": "ret", "kind": "spec", "target": "validate_exclusive", "msg": "accepted without search only when at most one argument is explicitly present",
+                            "pc": list(pc), "neg": f"(bvugt {cnt} (_ bv1 64))"})
+        if seen != {True, False}:
+            shape("validate_exclusive no longer has an early-accept path and a search path")
+    except Unsupported as e:
+        shape("validate_exclusive no longer has the reference shape: " + str(e)[:100])
+    # closure#0: what counts as present
+    try:
+        c0 = _find(fns, "parser/validator.rs", "validate_exclusive::{closure#0}")
+        e0 = symex.Exec(ctx, c0, [("opq", "c0env"), ("opq", "item")]).run()
+        obs += e0.obligations
+        ce = _key_sym(ctx, r"^MatchedArg::check_explicit\(item", "Bool")
+        fs = _key_sym(ctx, r"^is_some\(command::Command::find\(c0env", "Bool")
+        for pc, val in e0.returns:
+            obs.append({"fn": c0.name, "block": "ret", "kind": "spec", "target": "validate_exclusive", "msg": "counted as present <=> explicitly present (not a default) and a real argument",
+                        "pc": list(pc), "neg": f"(not (= {val[1]} (and {ce} {fs})))"})
+        enc.append(_enc(c0, e0, len(e0.returns)))
+        c2 = _find(fns, "parser/validator.rs", "validate_exclusive::{closure#2}::{closure#0}")
+        e2 = symex.Exec(ctx, c2, [("opq", "c2env"), ("opq", "argref")]).run()
+        obs += e2.obligations
+        exs = _key_sym(ctx, r"^Arg::is_exclusive_set\(argref\)$", "Bool")
+        ac = _key_sym(ctx, r"^c2env\.0$", "(_ BitVec 64)")
+        for pc, val in e2.returns:
+            obs.append({"fn": c2.name, "block": "ret", "kind": "spec", "target": "validate_exclusive", "msg": "reported <=> the argument is exclusive and is not alone",
+                        "pc": list(pc), "neg": f"(not (= {val[1]} (and {exs} (bvugt {ac} (_ bv1 64)))))"})
+        enc.append(_enc(c2, e2, len(e2.returns)))
+    except Unsupported as e:
+        shape("a closure of validate_exclusive no longer has the reference shape: " + str(e)[:100])
+    for o in obs:
+        o.setdefault("target", "validate_exclusive")
+    return ctx, obs, enc, con
+
+
+SPECS["C03"] = [spec_validate_exclusive]
